@@ -56,6 +56,9 @@ pub fn log_from(start: usize) -> Vec<Ev> {
 pub fn take_log() -> Vec<Ev> {
     LOG.with(|l| std::mem::take(&mut *l.borrow_mut()))
 }
+pub fn log_clone(from: i64, to: i64) {
+    push(Ev::Clone(from, to));
+}
 fn push(e: Ev) {
     LOG.with(|l| l.borrow_mut().push(e));
 }
